@@ -95,12 +95,18 @@ pub struct Prediction {
     pub io_ops: u32,
     /// iterations of `Stmt::Storm` loops executed (the step cap of the execution allows for them)
     pub storm_iterations: u64,
+    /// evaluation steps of the model (expressions + statements): the step cap of the execution
+    /// on the real VM grows with them, so that a legitimately long run is never "did not return"
+    pub model_steps: u64,
     /// the uncaught error is a runtime error that was caught and thrown again on its way: what
     /// is thrown again is the TEXT of the error as the catch block saw it (possibly several
     /// lines), so context the host appends afterwards does not end up on the first line
     pub rethrown_runtime: bool,
     /// see `ThrowInfo::foreign`
     pub trace_foreign: Vec<String>,
+    /// parallel to `caught`: the caught value was a runtime error (its text may carry trace
+    /// lines); false = a thrown value, which reaches the handler exactly as thrown
+    pub caught_runtime: Vec<bool>,
     /// an alternative first line of the error that is accepted as well (see above)
     pub result_alt: Option<String>,
     /// ids of the tick sites in invocation order
@@ -148,8 +154,10 @@ impl Default for Prediction {
             ticks: 0,
             io_ops: 0,
             storm_iterations: 0,
+            model_steps: 0,
             rethrown_runtime: false,
             trace_foreign: vec![],
+            caught_runtime: vec![],
             result_alt: None,
             tick_ids: vec![],
             fired: 0,
@@ -163,6 +171,18 @@ impl Default for Prediction {
             live_at_failure: vec![],
         }
     }
+}
+
+thread_local! {
+    /// has the instance the model stands for already loaded `okmod` (its top level marks 4242
+    /// once per runtime)? Set by the engine before a model run, read back afterwards.
+    static OKMOD_LOADED: std::cell::Cell<bool> = const { std::cell::Cell::new(false) };
+}
+pub fn set_okmod_loaded(v: bool) {
+    OKMOD_LOADED.with(|c| c.set(v));
+}
+pub fn okmod_loaded() -> bool {
+    OKMOD_LOADED.with(|c| c.get())
 }
 
 pub struct ModelOpts {
@@ -264,6 +284,7 @@ impl<'a> Model<'a> {
             Err(_) => m.out.model_gap = Some("break/continue escaped to top level".into()),
         }
         m.out.gl = std::mem::take(&mut m.gl);
+        m.out.model_steps = m.steps;
         m.out
     }
 
@@ -441,6 +462,20 @@ impl<'a> Model<'a> {
                 let r = self.invoke(func, 0, line, c.conduit)?;
                 Ok(5 + r.to_string().len() as i64)
             }
+            Conduit::Chain(ad, co) if co == crate::simlang::CHAIN_FOR => {
+                for step in crate::simlang::CHAIN_FOR_SCRIPTS[ad as usize].chars() {
+                    match step {
+                        'A' => {
+                            self.invoke(func, a, line, c.conduit)?;
+                        }
+                        'B' => {
+                            self.invoke(func, a.wrapping_add(1), line, c.conduit)?;
+                        }
+                        _ => self.out.markers.push(77),
+                    }
+                }
+                Ok(0)
+            }
             Conduit::Chain(..) | Conduit::Native2(_) => {
                 self.invoke(func, a, line, c.conduit)?;
                 self.invoke(func, a.wrapping_add(1), line, c.conduit)?;
@@ -518,6 +553,7 @@ impl<'a> Model<'a> {
                             Ok(v) => sum = sum.wrapping_add(v),
                             Err(Abrupt::Throw(t)) => {
                                 self.out.caught.push((0, t.thrown.class()));
+                                self.out.caught_runtime.push(matches!(t.thrown, Thrown::Runtime(_)));
                                 self.out.sig.push("caught-in-suspended-generator-frame".into());
                                 sum = sum.wrapping_add(-1);
                                 break; // the rest of the try block is skipped
@@ -536,6 +572,7 @@ impl<'a> Model<'a> {
                         Ok(v) => sum = sum.wrapping_add(v),
                         Err(Abrupt::Throw(t)) => {
                             self.out.caught.push((0, t.thrown.class()));
+                            self.out.caught_runtime.push(matches!(t.thrown, Thrown::Runtime(_)));
                             self.out.sig.push("caught-in-generator".into());
                             sum = sum.wrapping_add(-1);
                         }
@@ -556,7 +593,7 @@ impl<'a> Model<'a> {
 
     fn dump(&mut self, n: u32, f: &Frame) {
         self.out.dumps.push(format!(
-            "{n}:{}|{}|{}|{}|{}|{}|{}",
+            "{n}:{}|{}|{}|{}|{}|{}|{}|{{ga: 1, gb: 2}}",
             f.i[0],
             f.i[1],
             f.i[2],
@@ -594,6 +631,7 @@ impl<'a> Model<'a> {
     }
 
     fn exec_stmt(&mut self, s: &Stmt, f: &mut Frame) -> Exec<()> {
+        self.steps += 1;
         match s {
             Stmt::Mark(n) => self.out.markers.push(*n),
             Stmt::Assign(v, e) => {
@@ -720,10 +758,62 @@ impl<'a> Model<'a> {
             }
             Stmt::ImportStep(v, ok) => {
                 f.i[*v as usize] = 42;
+                if *ok && !okmod_loaded() {
+                    // the module's top level runs once per runtime
+                    self.out.markers.push(4242);
+                    set_okmod_loaded(true);
+                }
                 if !*ok {
                     self.out.error_occurred = true;
                     self.out.sig.push("failed-import-caught".into());
                 }
+            }
+            Stmt::Fall(..) => {}
+            Stmt::PreludeFail(k) => {
+                let (_, frames, _, msg, thrown_string) = crate::simlang::PRELUDE_FAILS[*k as usize];
+                let base = self.printed.prelude_fail_line[*k as usize];
+                let line = self.stmt_line(s);
+                let thrown = if thrown_string { Thrown::Str(msg.into()) } else { Thrown::Runtime(msg.into()) };
+                let mut a = self.throw(thrown, base + frames[0], "PreludeFail");
+                if let Abrupt::Throw(t) = &mut a {
+                    for off in &frames[1..] {
+                        t.call_lines.push(base + off);
+                    }
+                    if line == 0 {
+                        t.crossed_opaque = true;
+                    } else {
+                        t.call_lines.push(line);
+                    }
+                }
+                return Err(a);
+            }
+            Stmt::AssignOrThrow(v, cexp, e, n, form) => {
+                let cv = self.eval(cexp, f)?;
+                let throws = if *form == 0 { cv <= 0 } else { cv == 0 };
+                if throws {
+                    let line = match self.stmt_line(s) {
+                        0 => 0,
+                        l => l + *form as u32,
+                    };
+                    return Err(self.throw_stmt(Thrown::Str(format!("E{n}")), line));
+                }
+                let x = self.eval(e, f)?;
+                f.i[*v as usize] = x;
+            }
+            Stmt::SortFailKeeps(v) => {
+                f.i[*v as usize] = 3;
+                self.out.error_occurred = true;
+                self.out.sig.push("sort-fails".into());
+            }
+            Stmt::GlobalMapBadKey => {
+                let line = self.stmt_line(s);
+                let mut a = self.throw(Thrown::Runtime(ERR_UNHASHABLE.into()), line, "GlobalMapBadKey");
+                if let Abrupt::Throw(t) = &mut a
+                    && line == 0
+                {
+                    t.crossed_opaque = true;
+                }
+                return Err(a);
             }
             Stmt::Tiny(v, k, bad) => {
                 f.i[*v as usize] = if *bad { -1 } else { crate::simlang::TINY[*k as usize].2 };
@@ -748,6 +838,7 @@ impl<'a> Model<'a> {
                     Ok(x) => f.i[*v as usize] = x,
                     Err(Abrupt::Throw(info)) => {
                         self.out.caught.push((*id, info.thrown.class()));
+                        self.out.caught_runtime.push(matches!(info.thrown, Thrown::Runtime(_)));
                         self.out.sig.push("caught:break-value-in-try".into());
                         self.exec_block(handler, f)?;
                         f.i[*v as usize] = -7;
@@ -832,25 +923,29 @@ impl<'a> Model<'a> {
                     (CatchKind::String, Thrown::Str(_) | Thrown::Runtime(_)) => true,
                     (CatchKind::Number, Thrown::Num(_)) => true,
                     (CatchKind::Typed(k), Thrown::Typed(k2, _)) => k == k2,
-                    (CatchKind::MapCode, Thrown::Typed(..)) => true,
+                    (CatchKind::MapCode | CatchKind::MapCodeNum, Thrown::Typed(..)) => true,
+                    (CatchKind::StringOpt, Thrown::Str(_) | Thrown::Runtime(_)) => true,
+                    (CatchKind::TypedOpt(k), Thrown::Typed(k2, _)) => k == k2,
                     (CatchKind::MapCodeTyped(k), Thrown::Typed(k2, _)) => k == k2,
                     _ => false,
                 });
             if let Some(ix) = ix {
                 let shown = match (&t.catches[ix].kind, &th) {
                     // the pattern binds the entry, not the thrown map
-                    (CatchKind::MapCode | CatchKind::MapCodeTyped(_), Thrown::Typed(_, c)) => c.to_string(),
+                    (CatchKind::MapCode | CatchKind::MapCodeTyped(_) | CatchKind::MapCodeNum, Thrown::Typed(_, c)) => c.to_string(),
                     _ => th.class(),
                 };
                 self.out.caught.push((t.id, shown));
+                self.out.caught_runtime.push(matches!(th, Thrown::Runtime(_)));
                 self.out.sig.push(format!(
                     "caught:{}",
                     match t.catches[ix].kind {
                         CatchKind::Any => "any",
-                        CatchKind::String => "string",
+                        CatchKind::String | CatchKind::StringOpt => "string",
                         CatchKind::Number => "number",
-                        CatchKind::Typed(_) => "typed",
-                        CatchKind::MapCode | CatchKind::MapCodeTyped(_) | CatchKind::MapMissing => "map-pattern",
+                        CatchKind::Typed(_) | CatchKind::TypedOpt(_) => "typed",
+                        CatchKind::NeverLocal(_) => "never",
+                        CatchKind::MapCode | CatchKind::MapCodeTyped(_) | CatchKind::MapMissing | CatchKind::MapCodeNum => "map-pattern",
                     }
                 ));
                 r = self.exec_block(&t.catches[ix].block, f);
